@@ -94,8 +94,8 @@ package parser
 //@ at call append #* before assert line: arg1[0].Source != "" ==> arg1[0].SourceLoc.LineNo == loc0.LineNo + count(substr(data, 0, cov), '\n') && arg1[0].SourceLoc.Pathname == loc0.Pathname
 //@ at call append #*: cov = cov + len(arg1[0].Source)
 //@ at call append #1 before assert text: arg1[0].Type == TextTokenType
-//@ at call Count #1 assert textLines: count(substr(data, 0, ts), '\n') == count(substr(data, 0, p), '\n') + result
-//@ at call Count #2 assert tokenLines: count(substr(data, 0, te), '\n') == count(substr(data, 0, ts), '\n') + result
+//@ at call Count #1 after assert textLines: count(substr(data, 0, ts), '\n') == count(substr(data, 0, p), '\n') + result
+//@ at call Count #2 after assert tokenLines: count(substr(data, 0, te), '\n') == count(substr(data, 0, ts), '\n') + result
 //@ at call append #2: pendingL = true
 //@ at call append #3 before assert object: arg1[0].Type == ObjTokenType && pendingL == (at(arg1[0].Source, 2) == '-')
 //@ at call append #3: pendingL = false
